@@ -256,9 +256,11 @@ class TranslateNode(Node, TranslatableTag):
         if autoescape:
             message_text = Markup(message_text)
 
+        # Remove escaped percent signs before looking for variables, so the second
+        # half of a `%%` is not mistaken for an escape of the `%(name)s` following it.
         _vars = {
             k: to_liquid_string(context.resolve(k), autoescape=autoescape)
-            for k in self.re_vars.findall(message_text)
+            for k in self.re_vars.findall(message_text.replace("%%", ""))
         }
 
         return message_text % _vars
